@@ -33,6 +33,10 @@ FINDINGS = {
                                "the same location (no longer reachable through the gateway, which now refuses names without exactly three non-empty parts)",
     "C20-routing-unvalidated": "the SDK client accepts any server ranges: an island of 1..allIslands that no range covers has no route "
                                "(GetServiceClient returns nil), an island covered twice silently goes to the later entry",
+    "C20-unrouted-island-panics": "an SDK call for a name whose island has no route dereferences the nil client returned by GetServiceClient "
+                                  "and panics (nil pointer) instead of returning an error",
+    "C20-path-cache-stale": "GetFullHashPath memoises the first path on the name object and returns it for ANY later root / island / depth / "
+                            "folders-per-level: asked for island 1 and then island 2 it still answers /r/1/…",
     "C20-island-cache-stale": "GetIslandID / GetFolderNumber memoise the first island on the name object and return it for ANY later island "
                               "count: users/profiles/alice answers 956 for N=1000 and still 956 when asked for N=5",
     "C20-island-off-by-one": "island number is 0-based, out of 1..N, or differs between SDK and server",
@@ -67,6 +71,10 @@ def oracle(rep):
                 if got != fresh:
                     return ("C20-island-cache-stale", "%s: second call on the same name object for N=%s answers %s, a fresh object answers %s (`%s`)"
                             % (side, f[5], got, fresh, op))
+        elif f[0] == "path2":
+            got, fresh = line.split(" p2=")[1].split("!")
+            if got != fresh:
+                return ("C20-path-cache-stale", "second GetFullHashPath on the same name object answers %s, a fresh object answers %s (`%s`)" % (got, fresh, op))
         elif f[0] == "chain":
             if not line.endswith("fresh=true"):
                 return (None, "a name built step by step answers differently from a freshly built one (`%s` -> %s)" % (op, line))
@@ -74,6 +82,10 @@ def oracle(rep):
             N = int(f[1])
             rs = [] if f[2] == "-" else [tuple(int(x) for x in r.split("-")) for r in f[2].split(",")]
             cover = {i: [j for j, (a, b) in enumerate(rs) if a <= i <= b] for i in range(1, N + 1)}
+            call = line.split(" call=")[1] if " call=" in line else None
+            line = line.split(" call=")[0]
+            if call == "panic":
+                return ("C20-unrouted-island-panics", "an SDK call for an island without a route panics (`%s`)" % op)
             got = dict(c.split(":") for c in line.split(",")) if ":" in line else {}
             if all(len(v) == 1 for v in cover.values()):
                 want = {str(i): str(v[0]) for i, v in cover.items()}
